@@ -13,6 +13,7 @@ printed as KNOWN-FINDING lines), 1 = violation (a line
 import hashlib
 import json
 import os
+import re
 import shutil
 import subprocess
 import sys
@@ -218,7 +219,46 @@ def child_cmd(engine, sub, tier, seed, child, nchild, frm, count, scheds, out, r
         cmd += ["--scheds", str(scheds)]
     if digests:
         cmd += ["--digests", digests]
+    if engine.startswith("seamsim") or engine.startswith("parsim"):
+        cmd += ["--hang-s", str(HANG_S)]
     return cmd
+
+
+HANG_S = int(os.environ.get("VERIF_HANG_S", "120"))
+
+
+def locate_hang(prop, engine, sub, tier, seed, c, nchild, count, child_stdout):
+    """A seamsim child ended with 'STALLED n' (its watchdog: no new case for HANG_S seconds; real code on
+    real threads, so a case that does not return is the library's doing). Runs the child again with the
+    flight recorder on from case n-1, takes the case that was in flight when it stalled again, and confirms
+    it alone in a fresh process (`seamsim exec` reports class `hang` when the case does not return in time).
+    Returns a candidate or None."""
+    m = re.search(r"STALLED (\d+)", child_stdout)
+    n = int(m.group(1)) if m else 0
+    trace = tmp_path("hang-trace-%s-%d" % (sub, c))
+    if os.path.exists(trace):
+        os.remove(trace)
+    out = tmp_path("hang-sum-%s-%d" % (sub, c))
+    rp = os.path.join(REPLAYS, "%s-%s-seed%d-hang-i{i}-s{s}.cand.json" % (prop, sub, seed))
+    cmd = child_cmd(engine, sub, tier, seed, c, nchild, 0, count, None, out, rp, None) + ["--trace-from", str(max(0, n - 2)), "--trace-out", trace]
+    try:
+        p = subprocess.run(cmd, stdout=subprocess.PIPE, stderr=subprocess.PIPE, text=True, env=ENV, timeout=3600)
+    except subprocess.TimeoutExpired:
+        return None
+    if p.returncode != 4 or not os.path.exists(trace):
+        return None
+    rec = json.load(open(trace))
+    rf = {"property": prop, "engine": engine, "verif_seed": seed, "run_index": rec.get("n", 0), "tier": tier,
+          "profile": "checked" if engine.endswith("checked") else "release", "case": rec["case"],
+          "observed": {"class": "hang", "site": "", "message": "", "detail": "no new case for %d s after this one began" % HANG_S},
+          "minimised": False, "notes": ["found by the watchdog of child %d of %d" % (c, nchild)],
+          "logger": c % 2 == 1, "bystanders": (c // 2) % 2 == 1}
+    path = os.path.join(REPLAYS, "%s-%s-seed%d-hang-c%d.cand.json" % (prop, sub, seed, c))
+    json.dump(rf, open(path, "w"), indent=1)
+    rc, res, _ = exec_file(engine, path, ["--replay-out", tmp_path("hang-out")], timeout=HANG_S * 3)
+    if rc == 3 and res.get("violation"):
+        return {"path": path, "result": res, "file": rf, "engine": engine, "sub": sub}
+    return None
 
 
 def run_part(prop, engine, sub, tier, seed, params, nchild=None, max_candidates=6, digests_dir=None):
@@ -271,6 +311,16 @@ def run_part(prop, engine, sub, tier, seed, params, nchild=None, max_candidates=
                 nxt = rf.get("run_index", count) + 1
                 if len(candidates) < max_candidates and nxt < count and engine.startswith("parsim"):
                     start(c, nxt)
+            elif rc == 4 and engine.startswith("seamsim") and "STALLED" in so:
+                # the child's watchdog saw no new case for HANG_S seconds: find the case, confirm it alone
+                if any(x["result"].get("class") == "hang" for x in candidates):
+                    continue  # one located hang per part is enough (each costs three time limits)
+                cand_h = locate_hang(prop, engine, sub, tier, seed, c, nchild, count, so)
+                if cand_h is None:
+                    for q, _, _ in procs.values():
+                        q.kill()
+                    raise HarnessError("child %d of %s/%s stalled (no new case for %d s) but the stall did not reproduce" % (c, prop, sub, HANG_S))
+                candidates.append(cand_h)
             else:
                 for q, _, _ in procs.values():
                     q.kill()
@@ -380,6 +430,9 @@ def exec_file(engine, path, extra=(), timeout=600):
     if engine == "miri":
         return exec_miri_file(path)
     cmd = [engine_bin(engine), "exec", "--file", path] + list(extra)
+    if engine.startswith("seamsim") or engine.startswith("parsim"):
+        cmd += ["--hang-s", str(HANG_S)]
+        timeout = max(timeout, HANG_S * 3)
     try:
         p = subprocess.run(cmd, stdout=subprocess.PIPE, stderr=subprocess.PIPE, text=True, env=ENV, timeout=timeout)
     except subprocess.TimeoutExpired:
@@ -564,7 +617,9 @@ def finalise_candidate(prop, cand, idx):
     """Minimises, replays in a fresh process, writes the final replay file. Returns its path."""
     engine = cand["engine"]
     try:
-        rf = cand["file"] if engine == "miri" else (minimise_parsim(cand) if engine.startswith("parsim") else minimise_seamsim(cand))
+        # a case that does not return costs the whole time limit per trial: it is reported as recorded
+        no_shrink = engine == "miri" or cand["result"].get("class") == "hang"
+        rf = cand["file"] if no_shrink else (minimise_parsim(cand) if engine.startswith("parsim") else minimise_seamsim(cand))
     except Exception as e:  # minimisation is best effort; the unminimised file is still a replay
         rf = cand["file"]
         rf.setdefault("notes", []).append("minimisation failed: %r" % (e,))
